@@ -3,6 +3,7 @@ package c12
 import (
 	"fmt"
 	"math/rand/v2"
+	"net"
 	"net/netip"
 	"os"
 	"runtime/debug"
@@ -63,10 +64,10 @@ type exec struct {
 	w    *udpsvc.World
 	up   *udpsvc.Upstream
 	spec *udpsvc.Spec
-	svc  *udpsvc.Service
+	svc  *svcRun
 
-	main      []*udpsvc.Client
-	extra     []*udpsvc.Client
+	main      []*hclient
+	extra     []*hclient
 	extraNext int
 	mainDest  []int
 
@@ -147,7 +148,7 @@ func (x *exec) stopFloods() {
 	}
 }
 
-func (x *exec) nextExtra() *udpsvc.Client {
+func (x *exec) nextExtra() *hclient {
 	c := x.extra[x.extraNext]
 	x.extraNext++
 	return c
@@ -280,7 +281,7 @@ func runPlan(p *plan, workDir string) (out outcome) {
 			spec.ClientEndpoint = fmt.Sprintf("%s:%d", x.nameUp, x.up.Addr.Port())
 		}
 	}
-	svc, err := udpsvc.Start(spec, workDir)
+	svc, err := startService(spec, p, workDir)
 	if err != nil {
 		out.setupErr = err
 		return
@@ -299,15 +300,16 @@ func runPlan(p *plan, workDir string) (out outcome) {
 		}
 	}()
 
-	newClient := func(id uint16) (*udpsvc.Client, error) {
+	// the i-th client of a plan: IPv4 or IPv6 according to the listener class (see svcRun.clientTarget)
+	newClient := func(id uint16, i int) (*hclient, error) {
 		codec, err := udpsvc.NewClientCodec(p.ServerProto, spec.ServerKeys, spec.ServerAddr, false)
 		if err != nil {
 			return nil, err
 		}
-		return udpsvc.NewClient(w, id, codec, spec.ServerAddr)
+		return newHClient(w, id, codec, svc.clientTarget(i))
 	}
 	for i := 0; i < p.NSessions; i++ {
-		c, err := newClient(uint16(i))
+		c, err := newClient(uint16(i), i)
 		if err != nil {
 			out.setupErr = err
 			return
@@ -325,12 +327,12 @@ func runPlan(p *plan, workDir string) (out outcome) {
 		switch ph.Kind {
 		case phLateFail:
 			nExtra += ph.N
-		case phBlockInit, phReject, phFailInit, phPackFail:
+		case phBlockInit, phReject, phFailInit, phPackFail, phReinit:
 			nExtra += ph.N
 		}
 	}
 	for i := 0; i < nExtra; i++ {
-		c, err := newClient(uint16(1000 + i))
+		c, err := newClient(uint16(1000+i), i)
 		if err != nil {
 			out.setupErr = err
 			return
@@ -360,6 +362,9 @@ func runPlan(p *plan, workDir string) (out outcome) {
 			}
 			x.pacedAll(sig, "resend")
 			x.established = true
+			if x.evictions > 0 && x.settled {
+				x.label("restart-answered") // every evicted session's client got an echo again, from the same client socket
+			}
 			if before != nil {
 				now := x.snapshotFrom()
 				for id, a := range now {
@@ -644,6 +649,197 @@ func runPlan(p *plan, workDir string) (out outcome) {
 			} else {
 				x.label("refused-sends:" + p.BatchMode)
 			}
+		case phRefusedMix:
+			if tunnel {
+				x.label("phase-skipped:refusedMix")
+				break
+			}
+			// One burst per session, written back to back so that it shares a sendmmsg batch: ordinary datagrams
+			// with one (Variant "double": two) addressed to port 0, which the relay's outbound socket refuses to
+			// send (EINVAL). Every ordinary datagram - before and BEHIND the refused one - must reach the
+			// destination. Judged only when nothing else can make the relay drop a datagram legitimately: no
+			// stream/flood running, and the sessions' send queues known to be empty (fresh sessions, or a paced
+			// echo since the last unpaced traffic; per session the relay is FIFO). The bursts are far smaller than
+			// the smallest send channel (64).
+			judged := !x.streamOn && !x.floodOn
+			if judged && x.established && !x.settled {
+				x.pacedAll("paced-no-reply", "before the refused-mix burst")
+				judged = x.settled
+			}
+			x.settled = false
+			refusedAt := map[int]bool{ph.Pct: true}
+			if ph.Variant == "double" && ph.Pct+2 <= ph.N-2 {
+				refusedAt[ph.Pct+2] = true
+			}
+			n0 := len(x.w.Arrivals())
+			want := map[[2]uint32]int{} // (session, seq) -> position in the burst
+			var wmu sync.Mutex
+			var bwg sync.WaitGroup
+			for i, c := range x.main {
+				d := x.mainDest[i]
+				bwg.Go(func() {
+					dests := make([]int, ph.N)
+					fills := make([]int, ph.N)
+					for j := range dests {
+						dests[j], fills[j] = d, 16
+						if refusedAt[j] {
+							dests[j] = x.dP0
+						}
+					}
+					seqs := c.BurstFills(dests, fills)
+					wmu.Lock()
+					for j, seq := range seqs {
+						if !refusedAt[j] && seq != 0 {
+							want[[2]uint32{uint32(c.ID), seq}] = j
+						}
+					}
+					wmu.Unlock()
+				})
+			}
+			bwg.Wait()
+			x.established = true
+			missing := func() []string {
+				seen := map[[2]uint32]bool{}
+				for _, a := range x.w.Arrivals()[n0:] {
+					if a.Err == nil {
+						seen[[2]uint32{uint32(a.Tag.Session), a.Tag.Seq}] = true
+					}
+				}
+				var m []string
+				for k, pos := range want {
+					if !seen[k] {
+						m = append(m, fmt.Sprintf("session %d seq %d (datagram %d of %d)", k[0], k[1], pos+1, ph.N))
+					}
+				}
+				sort.Strings(m)
+				return m
+			}
+			mixClass := p.BatchMode
+			if proxy {
+				mixClass = "via-upstream" // the port-0 target travels inside the datagram to the upstream: nothing is refused
+			}
+			if !judged {
+				x.label("refused-mix-unjudged")
+				time.Sleep(20 * time.Millisecond)
+			} else if !udpsvc.WaitFor(3*time.Second, func() bool { return len(missing()) == 0 }) {
+				m := missing()
+				x.miss("datagram-behind-refused-send-lost", fmt.Sprintf("%d session(s) each wrote %d datagrams back to back, number %v of them addressed to port 0 (batch mode %s, relay batch %d, client %s); 3 s later %d of the %d ordinary datagrams have not reached the destination: %s",
+					len(x.main), ph.N, keysOf(refusedAt), p.BatchMode, p.RelayBatch, p.ClientProto, len(m), len(want), strings.Join(m[:min(len(m), 8)], "; ")))
+			} else {
+				x.label("refused-mix:" + mixClass)
+				if refusedAt[0] {
+					x.label("refused-mix-first-in-batch:" + mixClass)
+				}
+			}
+			// and the sessions keep working in both directions
+			x.pacedAll("paced-no-reply", "valid datagram after the refused-mix burst")
+		case phReinit:
+			// New clients whose first datagrams make the session initialisation fail; then the cause is removed and
+			// the SAME client socket (same address:port at the relay) sends a valid datagram: it must start a
+			// working session and be answered.
+			variant := ph.Variant
+			avail := func(v string) bool {
+				switch v {
+				case reinitReject:
+					return !tunnel
+				case reinitName:
+					return proxy && p.EndpointByName
+				case reinitRefused:
+					return p.ClientProto == "socks5" && p.EndpointByName
+				case reinitAssocRep:
+					return p.ClientProto == "socks5"
+				}
+				return false
+			}
+			if !avail(variant) {
+				variant = reinitReject
+			}
+			dead := netip.MustParseAddr("127.0.0.9") // nothing of the harness listens there
+			if variant == reinitRefused {
+				// make sure the connection really is refused at once (another process of the machine could hold the port)
+				c, err := net.DialTimeout("tcp", netip.AddrPortFrom(dead, x.up.Addr.Port()).String(), 200*time.Millisecond)
+				if err == nil {
+					c.Close()
+					variant = reinitReject
+				}
+			}
+			if !avail(variant) {
+				x.label("phase-skipped:reinit")
+				for k := 0; k < ph.N; k++ {
+					x.nextExtra()
+				}
+				break
+			}
+			judged := !x.streamOn && !x.floodOn
+			x.settled = false
+			failDest := x.dIP[0]
+			switch variant {
+			case reinitReject:
+				failDest = x.dRej
+			case reinitName:
+				udpsvc.SetName(x.nameUp, udpsvc.NameRule{Fail: true})
+			case reinitRefused:
+				udpsvc.SetName(x.nameUp, udpsvc.NameRule{IP: dead})
+			case reinitAssocRep:
+				x.up.SetAssocScript(&udpsvc.AssocScript{Mode: "reply-failure"})
+			}
+			var accBefore int64
+			if x.up != nil && p.ClientProto == "socks5" {
+				accBefore, _ = x.up.ControlConns()
+			}
+			cs := make([]*hclient, ph.N)
+			for k := range cs {
+				cs[k] = x.nextExtra()
+			}
+			for j := 0; j < 2; j++ { // every datagram is a new attempt (a failed initialisation leaves no entry)
+				for _, c := range cs {
+					c.Send(c.NextSeq(), failDest, 16)
+				}
+				time.Sleep(15 * time.Millisecond)
+			}
+			// the failing attempts must have happened before the cause is removed (a loaded machine may be slow)
+			observed := true
+			switch variant {
+			case reinitName, reinitRefused:
+				observed = udpsvc.WaitFor(time.Second, func() bool { return udpsvc.NameQueries(x.nameUp) > 0 })
+			case reinitAssocRep:
+				observed = udpsvc.WaitFor(time.Second, func() bool { acc, _ := x.up.ControlConns(); return acc > accBefore })
+			}
+			time.Sleep(45 * time.Millisecond)
+			// remove the cause
+			switch variant {
+			case reinitName, reinitRefused:
+				udpsvc.SetName(x.nameUp, udpsvc.NameRule{IP: lo})
+			case reinitAssocRep:
+				x.up.SetAssocScript(nil)
+			}
+			if !observed {
+				x.label("reinit-failure-not-observed")
+			}
+			okDest := x.dIP[0]
+			var rwg sync.WaitGroup
+			for _, c := range cs {
+				rwg.Go(func() {
+					if !judged {
+						c.Paced(okDest, 16, pacedWait/10, 1)
+						return
+					}
+					if seq, ok, n := c.Paced(okDest, 16, pacedWait, pacedTries); !ok {
+						x.miss("no-service-after-failed-init", fmt.Sprintf("client %s (session %d): its first datagrams could not start a session (%s); after the cause was removed, %d more datagrams (seq %d) from the same address:port got no echo (listener %s, batch mode %s, client %s)",
+							c.LocalAddr(), c.ID, variant, n, seq, listenName(p.Listen), p.BatchMode, p.ClientProto))
+					} else if observed {
+						x.label("reinit-ok:" + variant)
+						if c.V6 {
+							x.label("reinit-ok-v6-client")
+						}
+					}
+				})
+			}
+			rwg.Wait()
+			if !judged {
+				x.label("reinit-under-load-unjudged")
+			}
+			x.established = true // the new sessions exist now and must be evicted by a following pause
 		case phSteady:
 			// continuous client traffic with gaps far below the NAT timeout for longer than the NAT timeout:
 			// the session must stay (the destination sees one source address for the whole flow)
@@ -795,6 +991,10 @@ func runPlan(p *plan, workDir string) (out outcome) {
 			}
 			if sEst >= x.sIdle+len(x.main) {
 				x.label("eviction-observed")
+				if p.ConfigForm == formLegacy {
+					// the timeout came from natTimeoutSec: the sessions went away within natTimeout + slack, not after the 5-minute default
+					x.label("legacy-evicted-at-configured-timeout")
+				}
 				x.evictions++
 				if x.floodOn {
 					x.label("eviction-under-reply-flood")
@@ -955,7 +1155,7 @@ func runPlan(p *plan, workDir string) (out outcome) {
 		switch {
 		case judged && len(blocked) > 0 && D >= T*8/10:
 			fail(sigStopBlocks, "Manager.Run returned %v after cancel with natTimeout %v (bound %v). %v after cancel %d downlink goroutine(s) were parked reading their NAT socket "+
-				"although Stop had forced the read deadline into the past - the uplink re-armed it (uplink traffic at Stop: %v, reply traffic: %v, relay goroutines before Stop: %d):\n%s",
+				"with a read deadline in the future: Stop did not force it into the past for these sessions, or something re-armed it afterwards (uplink traffic at Stop: %v, reply traffic: %v, relay goroutines before Stop: %d):\n%s",
 				D.Round(time.Millisecond), T, bound, bound, len(blocked), up, down, gBefore, udpsvc.Summaries(blocked))
 		case judged:
 			x.miss("stop-exceeds-bound", fmt.Sprintf("Manager.Run returned %v after cancel (bound %v, natTimeout %v); at the bound:\n%s", D.Round(time.Millisecond), bound, T, dump))
@@ -1000,6 +1200,8 @@ func runPlan(p *plan, workDir string) (out outcome) {
 	x.label("server:" + p.ServerProto)
 	x.label("client:" + p.ClientProto)
 	x.label("batch:" + p.BatchMode)
+	x.label("listen:" + listenName(p.Listen))
+	x.label("form:" + formName(p.ConfigForm))
 	if judged {
 		x.label("stop-bound-judged")
 	}
@@ -1017,3 +1219,12 @@ func fracName(pct int) string {
 // evicting goroutine was runnable (a false alarm); the property gives no numeric bound, and a relay
 // that doubles or forgets the timeout is still far outside this allowance.
 func slackFor(T time.Duration) time.Duration { return evictSlack + T/10 }
+
+func keysOf(m map[int]bool) []int {
+	var ks []int
+	for k := range m {
+		ks = append(ks, k+1)
+	}
+	sort.Ints(ks)
+	return ks
+}
